@@ -4,6 +4,7 @@ from harness import wavecheck as wk, waveoracle as wo, wavesim_corr as wc, logic
 
 THEOREMS = ['C05_hazard_sound_op', 'C05_no_change_no_edge', 'C05_init_final_wave', 'C05_init_final_logic8', 'C05_logic8_predicts_wave',
             'C05_wavesim_model_predicted']
+THEOREMS += ['C05_source_no_change_no_edge']   # source tie of the merge kernel (Gen/WaveEvalSrc.v)
 
 
 def stim_codes(k):
@@ -65,6 +66,7 @@ def pulse_gate_case(rng, kind, ar, sims=48):
 
 def run(ck):
     sk.regen_tables(ck)
+    wk.regen_kernel(ck)
     if THEOREMS:
         ck.prove('C05', THEOREMS)
     fails, mism = wk.campaign(ck, ck.scale(40, 1200), oracle, gen_kw={'extra_prob': 0.0, 'strip_prob': 0.25}, coq_lanes=1, coq_every=2, glue=True)
